@@ -570,6 +570,20 @@ def r01e(ctx, ci, fn, p, e, t, sub, conds):
     installs = [ev for ev in p.calls() if method_call(ev.data[0]) and
                 method_call(ev.data[0])[1] == 'add_submodule' and
                 len(method_call(ev.data[0])[2]) == 2 and method_call(ev.data[0])[2][1] == t]
+    # the adjustment applies to every spelling of "no padding" the layer can hold: the torch
+    # constructor normalises padding=0 to the tuple (0,) (string modes are kept)
+    for a, pol in p.assumptions:
+        if pol and a[0] == 'cmp' and a[1] == 'in' and a[2] == ('attr', sub, 'padding') and \
+                a[3][0] in ('tuple', 'list', 'set'):
+            has_tuple0 = ('tuple', (('const', 0),)) in a[3][1] or ('const', (0,)) in a[3][1]
+            has_valid = ('const', 'valid') in a[3][1]
+            ctx.ob('R01e', f'{ci.name}.export pad adjustment covers unpadded layers[{conds}]',
+                   has_tuple0 and has_valid,
+                   "padding in (..., (0,), 'valid')" if has_tuple0 and has_valid else
+                   f'the causal-padding adjustment is guarded by padding in {short(a[3], 60)}: '
+                   f'nn.Conv1d stores padding=0 as (0,) and "valid" as a string, so an unpadded '
+                   f'layer whose receptive field was pruned is exported without the left pad '
+                   f'that keeps its output aligned', where(fn, e.node))
     ctx.ob('R01e', f'{ci.name}.export ConstantPad1d installed[{conds}]', bool(installs),
            'the new padding module is installed in the exported graph' if installs else
            'the new padding module is created but never installed (add_submodule) on this path',
